@@ -107,6 +107,12 @@ def generate(rng, tier):
         sched = [0, 1, 0, 1, 0, 1, 1, 0][:rng.randrange(2, 9)]
         yield (f"gensched {dsx} - {sx(['1', '0', '1', '0', '0'])} 0 {sx([[hx(a)], [hx(b)]])} "
                f"{sx([str(i) for i in sched])}"), "interleaved-generators"
+    # many APIDs with a group open at the same time (each APID on its own, however many there are)
+    for _ in range(2 if tier == "quick" else 40):
+        apids = rng.sample(range(1, 2047), 40)
+        spec = [(a, "F", "seq") for a in apids] + [(a, "C", "seq") for a in apids[::3]] + [(a, "L", "seq") for a in apids]
+        pk = build_history(rng, spec)
+        yield genutil.gen_line(dsx, "-", ("1", "0", "1", "0", "0"), 0, [b"".join(pk)]), "many-open-groups"
     # combining off: every packet alone
     for _ in range(20):
         spec = [(rng.choice([100, 200]), rng.choice("FCLU"), "seq") for _ in range(rng.randrange(1, 6))]
